@@ -35,6 +35,12 @@ def run(ctx, res):
                       "C19.conv (From<integer|&str|String|bool> for Value and Object::from_vec are value-preserving delegations)"]
     arms_rule(ctx, res)
     expand_rule(ctx, res)
+    # "... equals the value obtained by parsing the corresponding JSON text": the parser side — it accepts every valid text and
+    # its value is the text's abstract content (what the macro is compared with)
+    from .. import parsercheck
+    res.rules_run.append("C19.parse (the strict parser rejects no valid text and decodes it to its abstract content: product findings of kind rejects-valid and on the output channels)")
+    parsercheck.apply(ctx, res, ["C01.lang", "C02.", "E2."], strict_only=True, rename="C19.parse",
+                      finding_filter=lambda f, strict: None if (f["rule"].startswith("C02.") or "rejects-valid" in f["key"]) else "the parser accepting too much does not change what a valid literal parses to")
     res.trusted.append("rustc's macro_rules! expander and MIR construction (the expansion is taken from the compiler, not re-implemented)")
     res.trusted.append("json_number's NumberBuf::from(integer) / try_from(f64) and smallstr's From<&str> produce the lexical form of their argument (third-party crates, opaque)")
 
